@@ -264,6 +264,19 @@ class {P}ListOf:
     elem: Any = None
 
 
+@dataclass(frozen=True)
+class {P}Qty:
+    # a value whose __format__ (bare number) says less than its str() (number and unit)
+    n: float = 0.0
+    unit: str = ""
+
+    def __str__(self):
+        return f"{self.n} {self.unit}"
+
+    def __format__(self, spec):
+        return format(self.n, spec)
+
+
 class {P}Symbol:
     # an opaque handle with identity equality (no __eq__): two handles are equal only if they are one object
     def __init__(self, name):
@@ -515,6 +528,13 @@ def core_specs(P: str = "U", variant: int = 0) -> list[CS]:
                 FS("pb", "prop", "str", "str", default='""'),
             ),
         ),
+        # child fields whose names are the usual names of loop variables / locals in generated or hand-written code
+        CS(f"{P}ShortNames", (E,), F(FS("xs", "child", f"tuple[{E}, ...]", "tuple", (E,), default="()"), FS("o", "child", f"{E} | None", "opt", (E,), default="None"), FS("i", "child", f"{E} | None", "opt", (E,), default="None"), FS("f", "child", f"{E} | None", "opt", (E,), default="None"), FS("c", "child", f"tuple[{E}, ...]", "tuple", (E,), default="()"), FS("n", "child", f"{E} | None", "opt", (E,), default="None"))),
+        # a node class that writes an __eq__ of its own in its body (the library's notion of equality still applies to nodes)
+        CS(f"{P}OwnEq", (E,), F(FS("v", "prop", "int", "int", default="0"), FS("kid", "child", f"{E} | None", "opt", (E,), default="None")), body="    def __eq__(self, other):\n        return NotImplemented\n"),
+        # an optional child spelled None-first (the only spelling under which its class is ever named)
+        CS(f"{P}NoneFirstTarget", (E,), F(FS("v", "prop", "int", "int", default="0"))),
+        CS(f"{P}NoneFirst", (E,), F(FS("kid", "child", f"None | {P}NoneFirstTarget", "opt", (f"{P}NoneFirstTarget",), default="None"), FS("v", "prop", "int", "int", default="0"))),
         # a real forward reference: the class named in the (quoted) annotations is defined further down
         CS(
             f"{P}Fwd",
